@@ -540,12 +540,16 @@ func (c *Conn) Parse(data []byte) (retErr error) {
 								return
 							}
 						}
-						c.msgType = 0
-						c.compress = false
-						c.expectingFragments = false
-					} else {
-						c.expectingFragments = true
 					}
+				}
+				// the fragment state is tracked whichever handlers are
+				// installed: validFrame depends on it.
+				if fin {
+					c.msgType = 0
+					c.compress = false
+					c.expectingFragments = false
+				} else {
+					c.expectingFragments = true
 				}
 			case PingMessage, PongMessage, CloseMessage:
 				isProtocolMessage = true
@@ -1187,6 +1191,10 @@ func (c *Conn) validFrame(opcode MessageType, fin, res1, res2, res3, expectingFr
 	}
 	if expectingFragments && (opcode == TextMessage || opcode == BinaryMessage) {
 		return ErrFragmentsShouldNotHaveBinaryOrTextMessage
+	}
+	if !expectingFragments && opcode == FragmentMessage {
+		// a continuation frame without a message to continue.
+		return ErrInvalidFragmentMessage
 	}
 	return nil
 }
